@@ -503,6 +503,12 @@ func (f *FrameV1) SetAppendixData(appendix []byte) error {
 	// Expand data so we have enough space.
 	f.data = f.data[:cap(f.data)]
 
+	// Keep the required overhead margin free.
+	var overhead int
+	if f.builder != nil {
+		_, overhead = f.builder.FrameMargins()
+	}
+
 	// Add appendix data.
 	var endIndex int
 	switch {
@@ -519,9 +525,14 @@ func (f *FrameV1) SetAppendixData(appendix []byte) error {
 		f.data = f.data[:origDataSize]
 		return errors.New("appendix data too big")
 
-	case len(appendix) > len(f.data)-f.appendixIndex:
+	case len(appendix) > len(f.data)-f.appendixIndex-overhead:
+		// Move the frame to a bigger pooled slice.
 		f.data = f.data[:origDataSize]
-		return errors.New("not enough space for appendix")
+		if err := f.growPooledSlice(f.appendixIndex + len(appendix)); err != nil {
+			return err
+		}
+		f.data = f.data[:cap(f.data)]
+		fallthrough
 
 	default:
 		// Write new appendix.
@@ -533,6 +544,27 @@ func (f *FrameV1) SetAppendixData(appendix []byte) error {
 
 		return nil
 	}
+}
+
+// growPooledSlice moves the frame to a pooled slice that fits the given data size.
+func (f *FrameV1) growPooledSlice(dataSize int) error {
+	if f.builder == nil {
+		return errors.New("not enough space for appendix")
+	}
+	_, overhead := f.builder.FrameMargins()
+	ps := f.builder.GetPooledSlice(f.psDataOffset + dataSize + overhead)
+	if ps == nil {
+		return errors.New("not enough space for appendix")
+	}
+
+	// Copy frame to new pooled slice and release the previous one.
+	copy(ps[f.psDataOffset:], f.data)
+	if f.pooledSlice != nil {
+		f.builder.ReturnPooledSlice(f.pooledSlice)
+	}
+	f.pooledSlice = ps
+	f.data = ps[f.psDataOffset : f.psDataOffset+len(f.data)]
+	return nil
 }
 
 // FrameDataWithMargins returns the whole frame, including the given offset and overhead.
@@ -574,7 +606,7 @@ func (f *FrameV1) Clone() Frame {
 	c.psDataOffset = f.psDataOffset
 
 	// Copy pooled slice to new pooled slice.
-	c.pooledSlice = f.builder.GetPooledSlice(len(c.pooledSlice))
+	c.pooledSlice = f.builder.GetPooledSlice(len(f.pooledSlice))
 	copy(c.pooledSlice, f.pooledSlice)
 
 	// Recreate correct data slice.
